@@ -5,6 +5,8 @@ shared files. EXTRA=c04_,c08_ (env) adds other prefixes. Files of other packages
 half-written harness elsewhere cannot break this one."""
 import glob, json, os, re, sys
 
+REPO = os.environ.get("VERIF_REPO", "/repo")  # VERIF_REPO: evaluate a scratch copy (seeded changes); registered checks use /repo
+
 def files_for(pkg, fn, extra=()):
     m = re.match(r"VerifC(\d\d)", fn)
     want = ["c" + m.group(1) + "_"] if m else []
@@ -18,9 +20,9 @@ def files_for(pkg, fn, extra=()):
     return out
 
 def overlay(pkg, fn, extra=()):
-    rep = {"/repo/internal/zzverif/zzverif.go": "/verif/zzverif/zzverif.go"}
+    rep = {f"{REPO}/internal/zzverif/zzverif.go": "/verif/zzverif/zzverif.go"}
     for f in files_for(pkg, fn, extra):
-        rep[f"/repo/internal/{pkg}/zz_verif_{os.path.basename(f)}"] = f
+        rep[f"{REPO}/internal/{pkg}/zz_verif_{os.path.basename(f)}"] = f
     return {"Replace": rep}
 
 if __name__ == "__main__":
